@@ -2010,3 +2010,81 @@ func c03R15(c *Ctx, r *Report) {
 	r.Check(nKill > 0 && nT > 0 && len(hits) == 0, rule, fn.Name(), "the type of an arithmetic expression depends on both operand types", where,
 		"the result type of an arithmetic expression is taken from the left operand alone: `2 * 3.5` is an integer constant, so `let a: i32 = 2 + 3.5` is accepted and stores 5")
 }
+
+// ---- C20.R7: the TOML reader does not re-encode what it scans -----------------------------------------------
+
+func init() {
+	lateInits = append(lateInits, func() {
+		props["C20"].Quick = append(props["C20"].Quick, c20R7)
+		props["C20"].Explanation += " (R7) package toml never rebuilds text from decoded runes: the rune variable of a `range` over a string is only compared or classified (==, switch, unicode.IsX), and no []rune conversion is made — the values handed on are substrings of the input, so bytes that are not valid UTF-8 come back as written."
+	})
+}
+
+func c20R7(c *Ctx, r *Report) {
+	const rule = "C20.R7"
+	r.Describe(rule, "package toml (non-test): the value variable of every `for … range <string>` is used only as an operand of a comparison, a switch tag / case value or an argument of a unicode.* predicate; no conversion to []rune")
+	fns := c.AllFns(pkgTOML)
+	if !r.Anchor(rule, len(fns) > 0, "package toml") {
+		return
+	}
+	n := 0
+	for _, fn := range fns {
+		info := fn.Info()
+		n++
+		bad := ""
+		walkWithStack(fn.Decl.Body, func(nd ast.Node, stack []ast.Node) bool {
+			// []rune(s)
+			if cl, ok := nd.(*ast.CallExpr); ok && len(cl.Args) == 1 {
+				if tv, ok := info.Types[cl.Fun]; ok && tv.IsType() {
+					if sl, ok := tv.Type.Underlying().(*types.Slice); ok {
+						if b, ok := sl.Elem().Underlying().(*types.Basic); ok && b.Kind() == types.Int32 {
+							if at, ok := info.TypeOf(cl.Args[0]).Underlying().(*types.Basic); ok && at.Info()&types.IsString != 0 {
+								bad = "conversion to []rune at " + c.pos(cl.Pos())
+							}
+						}
+					}
+				}
+			}
+			rs, ok := nd.(*ast.RangeStmt)
+			if !ok || rs.Value == nil {
+				return true
+			}
+			if bt, ok := info.TypeOf(rs.X).Underlying().(*types.Basic); !ok || bt.Info()&types.IsString == 0 {
+				return true
+			}
+			rv := objOf(info, rs.Value)
+			if rv == nil {
+				return true
+			}
+			walkWithStack(rs.Body, func(x ast.Node, st []ast.Node) bool {
+				id, ok := x.(*ast.Ident)
+				if !ok || info.Uses[id] != rv || len(st) == 0 {
+					return true
+				}
+				switch p := st[len(st)-1].(type) {
+				case *ast.BinaryExpr:
+					switch p.Op {
+					case token.EQL, token.NEQ, token.LSS, token.LEQ, token.GTR, token.GEQ:
+						return true
+					}
+				case *ast.SwitchStmt:
+					if p.Tag == ast.Expr(id) {
+						return true
+					}
+				case *ast.CaseClause:
+					return true
+				case *ast.CallExpr:
+					if f := callee(info, p); f != nil && f.Pkg() != nil && f.Pkg().Path() == "unicode" {
+						return true
+					}
+				}
+				bad = "the decoded rune " + id.Name + " is written back at " + c.pos(id.Pos())
+				return true
+			})
+			return true
+		})
+		r.Check(bad == "", rule, fn.Name(), "scans without re-encoding", c.pos(fn.Decl.Pos()),
+			bad+": a byte that is not valid UTF-8 decodes to U+FFFD and is written back as three other bytes — the value `a\\xffb`, which the writer emits unchanged, is read back as `a\\ufffdb`")
+	}
+	r.Floor(rule, n, 10, "functions of package toml")
+}
